@@ -329,9 +329,9 @@ def run_one(choices, params):
                 nproc = len(processed)
                 on_host("10.9.9.9", send_hostile)
                 sim.sleep(0.125)
-                if kindh in MUST_NOT_PROCESS and transport == "udp" and len(processed) != nproc:
-                    raise core.Violation("state-altered-by-hostile-input", "the %s message was executed as the command %r" % (
-                        kindh, processed[nproc][:2]))
+                mine = [pr for pr in processed[nproc:] if pr[1][0] == "10.9.9.9"]
+                if kindh in MUST_NOT_PROCESS and mine:
+                    raise core.Violation("state-altered-by-hostile-input", "the %s message was executed as the command %r" % (kindh, mine[0][:2]))
                 alive_and_answering(kindh if transport == "udp" or not hold else ("silent TCP client" if hold else kindh))
             sync_model()
         # ---- epilogue --------------------------------------------------------------------------------------------
